@@ -339,6 +339,13 @@ class RandInfoBuilder(ModelVisitor,RandIF):
         # Summing the array relates all array elements
         for f in e.arr.field_l:
             self.process_fieldref(f)
+        if e.arr.is_rand_sz:
+            # ... and the number of elements being summed
+            self.process_fieldref(e.arr.size)
+            
+    def visit_expr_array_product(self, e):
+        # Same relationships as for the sum
+        self.visit_expr_array_sum(e)
 
     def visit_expr_fieldref(self, e):
         # If the field is already referenced by an existing randset
@@ -357,6 +364,9 @@ class RandInfoBuilder(ModelVisitor,RandIF):
                 # entire (possibly variable-size) scalar array
                 for f in e.fm.field_l:
                     self.process_fieldref(f)
+                if fm.is_rand_sz:
+                    # The size determines which elements are in the array
+                    self.process_fieldref(fm.size)
             else:
                 self.process_fieldref(fm)
  
